@@ -10,7 +10,8 @@ hand-modelled and tied by the correspondence harness hx_snaptun):
 * `IdentityRegistryState::add_identity`  — the supersession guard (`prev_identity != identity`) and the
   `retain` predicate that removes the identity from every other key;
 * `SnapTunServer::handle_{incoming,outgoing}_packet_with_session` — number of authorisation checks that
-  return early (3: occupied entry, new handshake, outgoing);
+  return early (3: occupied entry, new handshake, outgoing), and the early return that keeps a handshake rejected by
+  the freshly created tunnel from leaving a tunnel entry (fix 9197560);
 * gotatun `N_SESSIONS`, `MAX_QUEUE_DEPTH` (vendored crate; used only by the executable WireGuard stand-in of the
   model driver, never by a theorem about the server).
 """
@@ -90,6 +91,13 @@ def register(api):
         if n_checks != 3:
             raise E(f"server.rs: expected 3 `let Some(session_data) = self.authz.is_authorized(packet_now, ..) else` checks, found {n_checks}")
         vals["SERVER_AUTHZ_CHECKS"] = n_checks
+        # --- server: a handshake initiation that the freshly created tunnel rejects must not leave a tunnel entry
+        flat = " ".join(srv.split())
+        m1 = re.search(r"if let TunnResult::Err\(err\) = res \{.*?return HandleIncomingPacketResult::Result \{ result: TunnResult::Err\(err\), \}; \}", flat)
+        m2 = flat.find("e.insert_entry(ActiveTunnel { peer_static, tunn });")
+        if not m1 or m2 < 0 or not (m1.end() <= m2):
+            raise E("server.rs: the early return for a handshake rejected by the new tunnel (before insert_entry) was not found")
+        vals["VACANT_REJECTED_HANDSHAKE_NOT_INSERTED"] = True
 
         # --- gotatun constants (vendored crate, version pinned by Cargo.lock)
         lock = api.read("Cargo.lock")
